@@ -49,8 +49,8 @@ PROP = dict(
     ],
     jobs=dict(
         quick=[
-            job("contractcourt", "^TestVerifC13LogModel$", ["TestVerifC13LogModel"], 600, shards=4),
-            job("contractcourt", "^TestVerifC13Crash$", ["TestVerifC13Crash"], 50, shards=6,
+            job("contractcourt", "^TestVerifC13LogModel$", ["TestVerifC13LogModel"], 1200, shards=4),
+            job("contractcourt", "^TestVerifC13Crash$", ["TestVerifC13Crash"], 80, shards=6,
                 flaky_is_violation=False, timeout=400),
             job("contractcourt", "^TestVerifC13Repro", ["TestVerifC13ReproRestartInContractClosed",
                 "TestVerifC13ReproResolvedCheckpoint", "TestVerifC13ReproContestOwnSweepPanic",
